@@ -3,7 +3,7 @@
    Model: TextReader (sk_scan, skip_container_loop, suv_scan, skip_unquoted_value_loop) over BufWin.
    Specification: TextSkipRef (sk_scan_bytes, sref / skip_ref, skip_need, tok_count, uv_ref). *)
 From JV Require Import Bytes Tables U64Swar BufWin TextTok TextReader TextRef TextSkipRef TextTape TextDoc.
-From JV.proofs Require Import BufWinProofs TextReaderMainProofs TextSkipProofs TextSkipStreamProofs TextSkipTokProofs.
+From JV.proofs Require Import BufWinProofs TextReaderMainProofs TextSkipProofs TextSkipStreamProofs TextSkipTokProofs TextSkipUvProofs.
 Open Scope nat_scope.
 
 (* 1. The 8-byte SWAR step (contains_zero_byte for quote / hash / brace detection, count_chunk for
@@ -157,3 +157,57 @@ Proof.
   split; [reflexivity|]. cbv zeta. split; [reflexivity|]. eexists. eexists.
   split; [vm_compute; reflexivity|]. repeat split; reflexivity.
 Qed.
+
+(* 5. skip_unquoted_value (header bodies such as  rgb { 1 2 3 }).  [uv_ref s] is the windowless
+   reference: skip whitespace and comments; if a brace follows, skip the container with skip_ref;
+   otherwise consume nothing more (Some n = n bytes consumed, None = no matching close).
+   [uv_cap_ok r]: the slice window, or a non-empty buffer that satisfies skip_need for the
+   container body if there is one.  For every reader state, schedule and such buffer the streaming
+   skip_unquoted_value consumes exactly uv_ref bytes -- a comment between the value and its
+   container may span any number of refills (the in_comment flag), and the LF TAB TAB TAB word
+   test is unobservable. *)
+Theorem C09_text_skip_unquoted_value : forall input fuel r,
+  wf_bytes input -> rok input r -> uv_cap_ok r -> S (length (rest (rrd r))) < fuel ->
+  match uv_ref (stream_of r) with
+  | Some n => exists r', skip_unquoted_value fuel r = Ok r' /\ rok input r' /\
+                         stream_of r' = skipn n (stream_of r) /\
+                         reader_position r' = reader_position r + n /\ cap (rbw r') = cap (rbw r)
+  | None => skip_unquoted_value fuel r = Err E_Eof
+  end.
+Proof. exact skip_unquoted_value_ref. Qed.
+Print Assumptions C09_text_skip_unquoted_value.
+
+(* the three cases of uv_ref, spelled out *)
+Theorem C09_text_skip_unquoted_value_cases : forall input fuel r,
+  wf_bytes input -> rok input r -> uv_cap_ok r -> S (length (rest (rrd r))) < fuel ->
+  match uv_scan (stream_of r) false 0 with
+  | UvOpen n =>
+      match skip_ref (skipn (S n) (stream_of r)) with
+      | Some m => skip_lands input r (S n + m) (skip_unquoted_value fuel r)
+      | None => skip_unquoted_value fuel r = Err E_Eof
+      end
+  | UvStop n => skip_lands input r n (skip_unquoted_value fuel r)
+  | UvEnd => skip_lands input r (length (stream_of r)) (skip_unquoted_value fuel r)
+  end.
+Proof. exact skip_unquoted_value_stream. Qed.
+
+(* non-vacuity: the input  c=rgb # }<LF><LF><TAB><TAB><TAB>{ 1 } f=2  with 1-byte reads into a
+   4-byte buffer; after the tokens  c = rgb  the skip consumes 14 bytes and the next token is f *)
+Definition C09_text_uv_input : bytes :=
+  [99;61;114;103;98;32;35;32;125;10;10;9;9;9;123;32;49;32;125;32;102;61;50]%N.
+Definition C09_text_uv_after_rgb : reader :=
+  match next_opt 200 (reader_new 4 C09_text_uv_input (repeat (Data 1) 40)) with
+  | NTok _ r1 => match next_opt 200 r1 with
+                 | NTok _ r2 => match next_opt 200 r2 with NTok (RUnq _) r3 => r3 | _ => r2 end
+                 | _ => r1 end
+  | _ => reader_new 4 C09_text_uv_input []
+  end.
+Example C09_text_uv_ex :
+  let r := C09_text_uv_after_rgb in
+  reader_position r = 5 /\ uv_ref (stream_of r) = Some 14 /\
+  match skip_unquoted_value 200 r with
+  | Ok r' => reader_position r' = 19 /\
+             match next_opt 200 r' with NTok t _ => t = RUnq [102%N] | _ => False end
+  | _ => False
+  end.
+Proof. vm_compute. repeat split; reflexivity. Qed.
